@@ -31,7 +31,7 @@ HelperOk(r) ==
     ELSE /\ ~r.cerr /\ ~r.derr
          /\ r.crsv = r.rsv + 4 /\ r.cop = r.op /\ r.cfin = r.fin /\ r.cmasked = r.masked   \* only RSV1 and the length change
          /\ r.clenOK /\ r.dlenOK
-         /\ r.drsv = r.rsv /\ r.dop = r.op /\ r.dfin = r.fin
+         /\ r.drsv = r.rsv /\ r.dop = r.op /\ r.dfin = r.fin /\ r.dmasked = r.masked /\ r.maskKept
          /\ r.roundtrip
          /\ r.plainUntouched                          \* a frame without RSV1 is returned as it is
 
